@@ -75,6 +75,10 @@ def pattern(h, node, depth=4):
 def signature(prop, ev, clauses):
     cl = ",".join(sorted(c for c in clauses))
     if ev["typ"] == "probe":
+        if ev.get("exc"):
+            # a raising applicability check: root cause = rule, exception class, and whether a constant beyond 64 bits is involved
+            big = "bigconst" if any(e == "big" for e in ev["hb"].get("ex", [])) else "-"
+            return "%s|can_apply_raises|%s%s|probe|%s|%s" % (prop, ev["rule"], ":" + ev["opt"] if ev["opt"] else "", ev["exc"], big)
         return "%s|%s|%s%s|probe" % (prop, cl, ev["rule"], ":" + ev["opt"] if ev["opt"] else "")
     if ev["typ"] == "reprobe":
         return "%s|%s|after %s" % (prop, cl, ev["rule"].split("@")[0])
